@@ -80,6 +80,7 @@ pub fn generate(seed: u64) -> CheckSpec {
             stall_permille: 0,
             stall_len: 0,
             stall_target: String::new(),
+            stall_who: 0,
         },
     }
 }
